@@ -113,7 +113,25 @@ def sentinelText (name : String) (variant : Nat) : String :=
   | 1 => s!"module {name}\n\ngo 1.20\n"
   | 2 => s!"module {name}"                 -- no final newline
   | 3 => s!"// c\nmodule {name}\n"          -- a comment first
-  | _ => ""                                -- no module line at all
+  | 5 => s!"module {name}\r\n\r\ngo 1.20\r\n"  -- CRLF line ends (the module path then ends in \\r)
+  | 6 => s!"module {name} \n"               -- a blank after the module path
+  | 7 => s!"module {name}\t\n\ngo 1.21\n"   -- a tab after the module path, a go line
+  | 8 => s!"module {name}\n\n"              -- a trailing blank line
+  | _ => ""                                -- an EMPTY go.mod: no module line at all
+
+/-- sentinel variants `SetupBundle` can parse (for the main script's module) … -/
+def mainVariants : List Nat := [0, 0, 1, 5, 6, 7, 8]
+/-- … and for nested modules, whose go.mod is copied verbatim and never parsed: also empty and odd ones -/
+def nestedVariants : List Nat := [0, 1, 4, 4, 4, 5, 6, 2, 3]
+
+/-- the known finding: the sentinel of the MAIN script's module does not start with `module <path>\n` -/
+def clsOf (fs : Fs) (main : Path) : String :=
+  let bad := match findRootC fs (dirOf main) with
+    | some r => (match fs.lookup (r ++ [sentinel]) with
+        | some sc => (parseModule sc.bytes).isNone
+        | none => false)
+    | none => false
+  if bad then "KF-bundle-sentinel-syntax" else "good"
 
 def natStr (n : Nat) : String := toString n
 
@@ -154,7 +172,8 @@ def genLayout (idx : Nat) : Gen (Fs × Path × String × String) := do
   -- module shape: 0 at base, 1 none, 2 nested only, 3 base + nested, 4 above base
   let shape ← pick [0, 0, 0, 1, 1, 2, 2, 3, 3, 4]
   let name ← pick modNames
-  let variant ← pick [0, 0, 0, 0, 0, 1, 1, 1]
+  let variant ← pick mainVariants
+  let nv ← pick nestedVariants
   let bad ← chance 1 20
   let badVariant ← pick [2, 3, 4]
   let mainVariant := if bad then badVariant else variant
@@ -163,8 +182,8 @@ def genLayout (idx : Nat) : Gen (Fs × Path × String × String) := do
     match shape with
     | 0 => [(base, sentinelText name mainVariant)]
     | 1 => []
-    | 2 => [(base ++ nestedDir, sentinelText "nested" 0)]
-    | 3 => [(base, sentinelText name mainVariant), (base ++ nestedDir, sentinelText "other.org/n" variant)]
+    | 2 => [(base ++ nestedDir, sentinelText "nested" nv)]
+    | 3 => [(base, sentinelText name mainVariant), (base ++ nestedDir, sentinelText "other.org/n" nv)]
     | _ => [(base.dropLast, sentinelText name mainVariant)]
   let n ← (do let k ← rand 5; pure (k + 2))
   let spaceNames ← chance 1 4
@@ -179,13 +198,16 @@ def genLayout (idx : Nat) : Gen (Fs × Path × String × String) := do
   let scriptPaths := (List.range n).map (fun i =>
     base ++ dirs.getD i [] ++ [comp ((if spaceNames && i % 2 == 1 then "f " else "f") ++ natStr i ++ ".arrai")])
   let nd ← rand 4
-  let dataKinds ← genList nd (pick [".json", ".json", ".yaml", ".yml", ".txt", ".b"])
+  -- kinds ending in 0 are EMPTY files (zero-length archive entries)
+  let dataKinds ← genList nd (pick [".json", ".json", ".yaml", ".yml", ".txt", ".b", ".txt0", ".b0", ".arrai0"])
   let dataDirs ← genList nd (pick relDirs)
   let dataFiles : List (Path × String × Nat) := (List.range nd).map (fun i =>
-    let k := dataKinds.getD i ".txt"
+    let k0 := dataKinds.getD i ".txt"
+    let empty := k0.endsWith "0"
+    let k := if empty then String.ofList (k0.toList.take (k0.length - 1)) else k0
     let v := 100 + i
-    let text := if k == ".json" then natStr v else if k == ".yaml" then natStr v ++ "\n" else if k == ".yml" then natStr v
-      else "t " ++ natStr v
+    let text := if empty then "" else if k == ".json" then natStr v else if k == ".yaml" then natStr v ++ "\n"
+      else if k == ".yml" then natStr v else "t " ++ natStr v
     (base ++ dataDirs.getD i [] ++ [comp ("d" ++ natStr i ++ k)], text, v))
   -- the file system without script contents, to find module roots
   let skeleton : Fs := sentinels.map (fun s => (s.1 ++ [sentinel], mkData s.2 0))
@@ -208,7 +230,8 @@ def genLayout (idx : Nat) : Gen (Fs × Path × String × String) := do
         let isJson := ext (d.1.getLast?.getD []) = ".json".toList
         let isTxt := ext (d.1.getLast?.getD []) = ".txt".toList
         let r ← rand 30
-        let dec : Dec := if r < 18 then .none else if r < 24 then .bytes else if isJson then .json
+        let isScript := ext (d.1.getLast?.getD []) = arraiExt   -- an empty .arrai file: only as bytes
+        let dec : Dec := if isScript then .bytes else if r < 18 then .none else if r < 24 then .bytes else if isJson then .json
           else if isTxt && r == 29 then .json else .none
         match ← genSpelling myDir (rootOf myDir) d.1 dec with
         | some imp => imps := imp :: imps
@@ -222,13 +245,7 @@ def genLayout (idx : Nat) : Gen (Fs × Path × String × String) := do
   let fs : Fs := scripts.reverse ++ dataFiles.map (fun d => (d.1, mkData d.2.1 d.2.2)) ++ skeleton
   let main := scriptPaths.getD 0 []
   let shapeName := match shape with | 0 => "mod" | 1 => "nomod" | 2 => "nested-nomod" | 3 => "nested-mod" | _ => "mod-above"
-  -- the known finding: the sentinel of the MAIN script's module does not start with `module <path>\n`
-  let mainRootBad := match findRootC fs (dirOf main) with
-    | some r => (match fs.lookup (r ++ [sentinel]) with
-        | some sc => (parseModule sc.bytes).isNone
-        | none => false)
-    | none => false
-  let cls := if mainRootBad then "KF-bundle-sentinel-syntax" else "good"
+  let cls := clsOf fs main
   let _ := idx
   pure (fs, main, shapeName, cls)
 
@@ -257,8 +274,10 @@ def genTwin : Gen (Fs × Path × List Imp) := do
   let outer ← chance 5 6
   let nested ← pick nestedChoices
   let name ← pick modNames
+  let mv ← pick mainVariants
+  let nv ← pick nestedVariants
   let sentinels : List (Path × String) :=
-    (if outer then [(base, sentinelText name 0)] else []) ++ nested.map (fun d => (base ++ d, sentinelText "nested.org/n" 1))
+    (if outer then [(base, sentinelText name mv)] else []) ++ nested.map (fun d => (base ++ d, sentinelText "nested.org/n" nv))
   let skeleton : Fs := sentinels.map (fun s => (s.1 ++ [sentinel], mkData s.2 0))
   let mut files : Fs := []
   let mut j := 0
@@ -271,11 +290,12 @@ def genTwin : Gen (Fs × Path × List Imp) := do
        | 0 => [imp true "/data"]
        | 1 => [imp false "/util"]
        | 2 => [imp false "/data.arrai ", imp true "/util", imp false "/n.json"]
-       | _ => [])
+       | _ => [imp true "/z.txt" .bytes, imp false "/z.arrai" .bytes, imp true "/z.txt"])
     files := files ++ [ (dir ++ [comp "lib.arrai"], mkScript (10 + j) libImps),
                         (dir ++ [comp "util.arrai"], mkScript (200 + j) []),
                         (dir ++ [comp "data.arrai"], mkScript (100 + j) []),
-                        (dir ++ [comp "n.json"], mkData (natStr (300 + j)) (300 + j)) ]
+                        (dir ++ [comp "n.json"], mkData (natStr (300 + j)) (300 + j)),
+                        (dir ++ [comp "z.txt"], mkData "" 0), (dir ++ [comp "z.arrai"], mkData "" 0) ]
     j := j + 1
   let mainDirRel ← pick treeDirs
   let mainDir := base ++ mainDirRel
@@ -302,8 +322,9 @@ def genTwinCases (idx : Nat) : Gen (List Case) := do
   let cwd2 := if cwdFirst then w2 else w1
   let relative ← chance 1 2
   let mk (is : List Imp) : Fs := (main, mkScript 0 is) :: fs
-  pure [ mkCase s!"C15-n{idx}-fwd" "nested-twin/fwd" "good" (mk imps) main cwd1 cwd2 relative,
-         mkCase s!"C15-n{idx}-rev" "nested-twin/rev" "good" (mk imps.reverse) main cwd1 cwd2 relative ]
+  let cls := clsOf fs main
+  pure [ mkCase s!"C15-n{idx}-fwd" "nested-twin/fwd" cls (mk imps) main cwd1 cwd2 relative,
+         mkCase s!"C15-n{idx}-rev" "nested-twin/rev" cls (mk imps.reverse) main cwd1 cwd2 relative ]
 
 /-! ## routes: one file of a nested module reached several times in one evaluation, by different
 spellings and from different importers (a neighbour inside the nested module, a deeper script of it, a
@@ -337,10 +358,13 @@ def genRoutes : Gen (Fs × Path × List Imp) := do
   let nd ← pick [[comp "s"], [comp "u"], [comp "s", comp "t"]]
   let deeper ← chance 1 4     -- a module nested in the nested module
   let name ← pick modNames
+  let mv ← pick mainVariants
+  let nv ← pick nestedVariants
+  let nv2 ← pick nestedVariants
   let n := base ++ nd
   let sentinels : List (Path × String) :=
-    (if outer then [(base, sentinelText name 0)] else []) ++ [(n, sentinelText "nested.org/n" 1)] ++
-    (if deeper then [(n ++ [comp "v"], sentinelText "deep.org/v" 0)] else [])
+    (if outer then [(base, sentinelText name mv)] else []) ++ [(n, sentinelText "nested.org/n" nv)] ++
+    (if deeper then [(n ++ [comp "v"], sentinelText "deep.org/v" nv2)] else [])
   let skeleton : Fs := sentinels.map (fun s => (s.1 ++ [sentinel], mkData s.2 0))
   -- the same names everywhere, different contents
   let leaves : Fs :=
@@ -382,10 +406,11 @@ def genRoutesCases (idx : Nat) : Gen (List Case) := do
   let cwd2 := if cwdFirst then w2 else w1
   let mk (is : List Imp) : Fs := (main, mkScript 0 is) :: fs
   -- both orders, each with the main script given absolutely and relatively
-  pure [ mkCase s!"C15-r{idx}-fwd-abs" "routes/fwd/abs" "good" (mk imps) main cwd1 cwd2 false,
-         mkCase s!"C15-r{idx}-rev-abs" "routes/rev/abs" "good" (mk imps.reverse) main cwd1 cwd2 false,
-         mkCase s!"C15-r{idx}-fwd-rel" "routes/fwd/rel" "good" (mk imps) main cwd1 cwd2 true,
-         mkCase s!"C15-r{idx}-rev-rel" "routes/rev/rel" "good" (mk imps.reverse) main cwd1 cwd2 true ]
+  let cls := clsOf fs main
+  pure [ mkCase s!"C15-r{idx}-fwd-abs" "routes/fwd/abs" cls (mk imps) main cwd1 cwd2 false,
+         mkCase s!"C15-r{idx}-rev-abs" "routes/rev/abs" cls (mk imps.reverse) main cwd1 cwd2 false,
+         mkCase s!"C15-r{idx}-fwd-rel" "routes/fwd/rel" cls (mk imps) main cwd1 cwd2 true,
+         mkCase s!"C15-r{idx}-rev-rel" "routes/rev/rel" cls (mk imps.reverse) main cwd1 cwd2 true ]
 
 /-! ## corpus -/
 
